@@ -165,6 +165,15 @@ def check_wsgi(sched, rec, allow_eager_close=False):
         for k, v in (headers if isinstance(headers, list) else []):
             if k.lower() == 'content-length' and v != str(total):
                 pr.append('Content-Length %s != %d body bytes' % (v, total))
+    if sched.get('request') == 'too_long' and all(isinstance(c, bytes) for c in rec.chunks):
+        # refused with the request-too-long fault, whatever the input protocol makes of such bodies
+        resp = P.parse_response(sched['proto'], b''.join(rec.chunks))
+        if resp[0] != 'fault' or resp[1] != 'Client.RequestTooLong':
+            pr.append('a request longer than max_content_length was answered with %r' % (resp[:2],))
+        if P.out_of(sched['proto']) != 'soap11' and isinstance(status, str) and not status.startswith('413'):
+            pr.append('HTTP status %r for a request longer than max_content_length' % (status,))
+        if any(t.startswith('fn:') for t in rec.trace):
+            pr.append('user code ran for a request longer than max_content_length')
     closed = rec.extra.get('closed', [])
     if len(closed) != 1:
         pr.append('context closed %d times' % len(closed))
